@@ -5,7 +5,9 @@ DRV = "pool"
 CRATE = "hx-sched"
 RULE = pc.RULE
 ASSUMPTIONS = pc.ASSUMPTIONS
-TRUSTED = pc.TRUSTED
+TRUSTED = pc.TRUSTED + [
+    "harness/hx-pool-e2e: in-process runs through Divan::default().test_benches()/run_benches(); thread census via /proc/self/task/*/comm (Linux)",
+]
 CONSTS_USED = pc.CONSTS_USED
 GENERATED_OBLIGATIONS = [
     "C07_cfg_good : pool_unpark_when_old = 1, pool_wait_is_loop = true, pool_wait_while_nonzero = true",
@@ -13,7 +15,17 @@ GENERATED_OBLIGATIONS = [
 
 
 def streams(tier, rng):
-    return pc.streams("c07", tier, rng)
+    from vp import Stream
+    runs = ["runs=test,bench", "runs=bench", "runs=test", "runs=bench,bench,test", "runs=test,test,bench,bench"]
+    if tier != "quick":
+        runs += ["runs=" + ",".join(rng.choice(["test", "bench"]) for _ in range(rng.randrange(1, 9))) for _ in range(40)]
+    e2e = Stream("e2e-no-leaked-workers", "c07leak", runs, crate="hx-pool-e2e",
+                 compare=lambda i, m: i == m,
+                 describe="whole runs through divan's public API in one process (benchmarks with threads=[2,5] and [1,3], "
+                          "test_benches / run_benches, each run owns its ThreadPool); afterwards /proc/self/task is polled "
+                          "(<= 10 s) until no divan-* thread remains; expected: 0 survivors, 4 workers seen inside a call",
+                 hist={"runs per case": sorted({len(r.split(",")) for r in runs})})
+    return pc.streams("c07", tier, rng) + [e2e]
 
 
 def post(tier, rng, api):
